@@ -49,6 +49,23 @@ func propC12(r *Run) {
 				w.fs.Put(cfg.BaseDir+"/"+u+ext, []byte(RefWrite(m.Set, m.PW, salt, m.Stamp)+"\n"+m.Aux), 0o600)
 			}
 		}
+		if r.Choose("shared-password-around-a-name", 6) == 0 {
+			// every account holds the same password, and it is built around the name of one of them: the
+			// policy verdict on it differs from account to account
+			shared := users[0] + []string{"-zkw9", "-Tr7x.Qp", "2024!x"}[r.Choose("shared-pw-form", 3)]
+			for k, u := range users {
+				m := model[u]
+				m.PW = shared
+				ext := ".user"
+				if m.Admin {
+					ext = ".admin"
+				}
+				salt := make([]byte, m.Set.SaltLen())
+				salt[0] = byte(100 + k)
+				w.fs.Put(cfg.BaseDir+"/"+u+ext, []byte(RefWrite(m.Set, m.PW, salt, m.Stamp)+"\n"+m.Aux), 0o600)
+			}
+			r.Count("probe:shared-password-around-a-name")
+		}
 		mode := []string{"", "local", "local", "remote"}[r.Choose("upgrade-mode", 4)]
 		policyType, policyCond := "", ""
 		minScore := -1
@@ -314,6 +331,17 @@ func propC12(r *Run) {
 					r.Fail("harness/record", "%v", perr)
 				}
 			}
+			listBefore := mode != "remote" && r.Choose("list-full-around-login", 3) == 0
+			if listBefore {
+				// the administrator's user interface lists the users before and after: what the agent
+				// reports is what the directory holds, also for changes the agent made on its own
+				lf := &Call{Kind: "list-full", Via: "agent", Agent: a.idx}
+				w.addClient([]*Call{lf})
+				if wedge := w.settle(drainExtra); wedge != "" {
+					r.FailOther("C10", wedgeSignature(wedge), "%s", wedge)
+					return
+				}
+			}
 			before := w.fs.Snapshot("/srv/whawty")
 			mut0 := w.fs.Mutations
 			// in some local-mode logins one write-side file operation of the upgrade fails (full
@@ -413,6 +441,29 @@ func propC12(r *Run) {
 				masterOK := mode != "remote" || w.rtMode == "deliver"
 				if mode != "" && masterOK && !faulty {
 					r.Fail("upgrade/not-performed", "idle agent, mode %q: successful login of %s (via %s) with an upgradeable hash (set %d, default %d) whose password passes the policy, but the record was not rewritten", mode, u, via, rec0.ParamID, cfg.Default)
+				}
+			}
+			if listBefore && !faulty {
+				lf := &Call{Kind: "list-full", Via: "agent", Agent: a.idx}
+				w.addClient([]*Call{lf})
+				if wedge := w.settle(drainExtra); wedge != "" {
+					r.FailOther("C10", wedgeSignature(wedge), "%s", wedge)
+					return
+				}
+				r.Count("probe:list-full-after-login")
+				for _, lu := range users {
+					_, lc, lok := w.fileOf(cfg.BaseDir, lu)
+					if !lok {
+						continue
+					}
+					lrec, lerr := ParseStrict(strings.SplitN(lc, "\n", 2)[0])
+					got, listed := lf.ListFull[lu]
+					if lerr != nil || !lf.OK {
+						continue
+					}
+					if !listed || uint64(got.ParamID) != uint64(lrec.ParamID) || got.LastChanged.Unix() != lrec.Stamp {
+						r.Fail("upgrade/list-disagrees-with-directory", "idle agent after a login of %s: list-full reports %s as set %d changed %d (listed=%v), its record in the directory is set %d changed %d", u, lu, got.ParamID, got.LastChanged.Unix(), listed, lrec.ParamID, lrec.Stamp)
+					}
 				}
 			}
 			if content1 != content0 && !passes(u, m.PW) {
